@@ -48,5 +48,22 @@ def check(rep, ctx):
         rep.check(R_L, False, construct=fn, stmt=stmt_at(ctx, site),
                   message=f"a scratch buffer is allocated while the cached {side} plan of {cls} is built: it is shared by every later call",
                   **where)
+    # self-delimitation: the bytes a field's reader consumes are the bytes its writer produced (prefix kind, bias, payload)
+    from ..grammar import cmp_rw
+    from .wire import Wire
+    W = Wire(ctx)
+    R_S = rep.rule("C07-selfdelim", "per field, the reader's framing (prefix kind, width, bias, null form, item framing) is the writer's: "
+                   "a message ends exactly where the next one starts", floor=5000)
+    for key, cls, plan in W.classes():
+        if plan["error"]:
+            continue
+        for item in W.fields(key, cls, plan):
+            pf, f = item["pf"], item["f"]
+            if pf is None or pf.get("r") is None or pf.get("w") is None:
+                continue
+            diffs = [x for x in cmp_rw(W.nr(pf["r"]), W.nw(pf["w"]), f["name"]) if "conversion" not in x]
+            rep.check(R_S, not diffs, construct=f"{key}.{f['name']}", stmt=f"{pf['r_codec']['fn']} / {pf['w_codec']['fn']}",
+                      message="; ".join(diffs), **W.codec_loc(pf.get("w_codec")))
+    W.finish(rep)
     rep.sample({"rule": "C07-w-capability", "effects": [e for e in eng["effects"] if e[0] == "w" and e[2] == "param"][:4]})
     rep.extra.update(depends_on="C01-a/b for byte-count agreement; C06-a for the decode side")
